@@ -354,7 +354,7 @@ func main() {
 		evs, desc := genHistory(rng, serial+uint64(h))
 		rig, err := proc.New(proc.Options{Key: vlib.Key(proc.NodeKey), DB: store})
 		if err != nil {
-			r.Inconclusive("rig: " + err.Error())
+			r.InconclusiveCase("rig: " + err.Error())
 			break
 		}
 		var pending []*gossipv1.SignedObservation
@@ -438,7 +438,7 @@ func main() {
 		case werr = <-done:
 		case <-time.After(10 * time.Minute):
 			_ = cmd.Process.Kill()
-			r.Inconclusive("run-mode child watchdog fired")
+			r.InconclusiveCase("run-mode child watchdog fired")
 			continue
 		}
 		out := so.String()
@@ -455,7 +455,7 @@ func main() {
 			case strings.Contains(out, "CHILD-STALL"):
 				r.Violation("run-mode:processor-stalled", map[string]interface{}{"last_steps": lastSteps})
 			case strings.Contains(out, "CHILD-SETUP-FAILED"):
-				r.Inconclusive("child setup failed")
+				r.InconclusiveCase("child setup failed")
 			case strings.Contains(es, "panic:") || strings.Contains(es, "fatal error:"):
 				site := siteOf(es)
 				kind := "unknown"
